@@ -101,7 +101,9 @@ TRIAGE = [
     ("sdof", 85, 110, "equivalent", "np.array([[..]]) of blocks that are only indexed [i][j]"),
     ("sdof", 128, 135, "equivalent", "float() of floats"),
     ("sdof", 145, 162, "equivalent", "placeholder fully overwritten; tie -amin == amax gives the same absolute value"),
-    ("sdof", 174, 188, "allowed", "unused variable s; w[0] multiplies S_d[0] = 0; T exactly equal to 6 dt (boundary not fixed by the statement)"),
+    ("sdof", 174, 186, "equivalent", "unused variable s; w[0] multiplies S_d[0] = 0"),
+    ("sdof", 187, 187, "strengthened", "'<=' for '<' at a period of exactly six steps: first triaged as allowed, but 'below 6 time steps' does fix "
+                                       "it; C03 now decides the rule in exact rational arithmetic (ambiguity only within 8 eps) and generates exact-six cases"),
     ("sdof", 250, 262, "not-claimed", "calc_resp_uke_spectrum: no property"),
     ("single", 45, 55, "equivalent", "placeholder overwritten before it can be read"),
     ("single", 130, 162, "not-claimed", "default smoothing frequency range / count of the object (C07 quantifies over target-frequency sets that are given)"),
@@ -126,7 +128,7 @@ TRIAGE = [
                                    "'previous'-kind interp1d (which sorts its nodes) carries the same value either way"),
     ("loader", 20, 24, "equivalent", "usecols=0 / -1 of a one-column file"),
     ("peaks_and_crossings", 80, 88, "equivalent", "np.where(...)[0] / [-1] of a 1-tuple"),
-    ("sdof", 215, 222, "allowed", "T exactly equal to 6 dt (boundary not fixed by the statement)"),
+    ("sdof", 215, 222, "strengthened", "as sdof:187 (true_response_spectra)"),
     ("sdof", 262, 266, "equivalent", "mass = 1"),
     ("stockwell", 165, 175, "equivalent", "one extra Toeplitz row that the next slice drops; slice end beyond the array"),
     ("stockwell", 212, 224, "equivalent", "axis of a 1-D flip; a truncation length that only grows beyond the array length"),
